@@ -300,11 +300,15 @@ func (w *weaver) mutexMethod(call *ast.CallExpr) (recv ast.Expr, method string, 
 	case "Mutex":
 	case "RWMutex":
 		rw = true
+	case "Once":
+		if fn.Name() != "Do" {
+			return
+		}
 	default:
 		return
 	}
 	switch fn.Name() {
-	case "Lock", "Unlock", "RLock", "RUnlock":
+	case "Lock", "Unlock", "RLock", "RUnlock", "Do":
 	default:
 		w.st.Unhandled = append(w.st.Unhandled, fmt.Sprintf("%s: sync.%s.%s", w.pos(call), named.Obj().Name(), fn.Name()))
 		return
@@ -347,6 +351,14 @@ func (w *weaver) site(n ast.Node) string {
 func (w *weaver) rewriteCall(call *ast.CallExpr) {
 	recv, method, rw, ok := w.mutexMethod(call)
 	if !ok {
+		return
+	}
+	if method == "Do" {
+		// sync.Once.Do: callers that lose the race block on the Once's internal mutex, which the simulator cannot see;
+		// serialise them cooperatively instead (the winner may park inside f)
+		w.st.Rewrites["once:Do"]++
+		call.Args = []ast.Expr{recv, call.Args[0], &ast.BasicLit{Kind: token.STRING, Value: strconv.Quote(w.site(call))}}
+		call.Fun = w.zz("OnceDo")
 		return
 	}
 	name := method
